@@ -121,6 +121,27 @@ def mutate_value(rng, vg, v, depth=0):
     return w
 
 
+def attached_path(ns, obj):
+    """path of `obj` in its root's in-memory tree (identity walk), or None if detached"""
+    root = obj._root if obj._root is not None else obj
+    if obj is root:
+        return ()
+
+    def walk(node, path):
+        data = node._data
+        items = data.items() if isinstance(data, dict) else enumerate(data)
+        for k, v in items:
+            if v is obj:
+                return path + (k,)
+            if isinstance(v, ns.SyncedCollection):
+                r = walk(v, path + (k,))
+                if r is not None:
+                    return r
+        return None
+
+    return walk(root, ())
+
+
 DICT_MUT = ["dsetitem", "dsetitem", "dsetitem", "ddelitem", "dpop", "dpopitem", "dclear", "dupdate",
             "dupdate", "dsetdefault", "dreset"]
 DICT_READ = ["dgetitem", "dgetitem", "dgetitem", "dcontains", "dlen", "diter", "dcall", "drepr", "dkeys",
@@ -151,16 +172,25 @@ class ProgGen:
         return isinstance(obj, self.r.ns.SyncedDict)
 
     def pick_handle(self):
-        cands = ["o%d" % i for i in range(len(self.r.objs))] + ["h%d" % i for i in range(len(self.r.handles))]
-        # prefer recently obtained (deeper) handles a bit
-        if self.r.handles and self.rng.random() < 0.45:
-            return "h%d" % self.rng.randrange(len(self.r.handles))
-        return self.rng.choice(cands)
+        roots = ["o%d" % i for i in range(len(self.r.root_objs()))]
+        hs = list(range(len(self.r.handles)))
+        if hs and self.rng.random() < 0.6:
+            # mostly handles that are still attached (deeper ones preferred), sometimes stale ones
+            if self.rng.random() < 0.85:
+                paths = [(i, attached_path(self.r.ns, self.r.handles[i])) for i in hs[-12:]]
+                att = [(i, p) for i, p in paths if p is not None]
+                if att:
+                    deep = [i for i, p in att if len(p) >= 2]
+                    if deep and self.rng.random() < 0.5:
+                        return "h%d" % self.rng.choice(deep)
+                    return "h%d" % self.rng.choice(att)[0]
+            return "h%d" % self.rng.choice(hs)
+        return self.rng.choice(roots)
 
     def _value(self):
         if self.p_invalid and self.rng.random() < self.p_invalid:
             return self.vg.invalid(self.invalid_kinds, self.rng.choice([0, 1, 1, 2, 3]))[0]
-        return self.vg.value(3)
+        return self.vg.value(3, 0.55)
 
     def _key(self, cur, miss=None):
         miss = self.p_miss if miss is None else miss
@@ -191,6 +221,16 @@ class ProgGen:
         cur = obj._to_base()
         read = self.rng.random() < self.p_read
         rng = self.rng
+        # navigation: descend into a container child to obtain a deeper handle
+        if rng.random() < 0.22:
+            if isinstance(cur, dict):
+                ks = [k for k, v in cur.items() if isinstance(v, (dict, list))]
+                if ks:
+                    return ("call", h, "dgetitem", rng.choice(ks))
+            else:
+                ks = [i for i, v in enumerate(cur) if isinstance(v, (dict, list))]
+                if ks:
+                    return ("call", h, "lgetitem", rng.choice(ks))
         if self._is_dict(obj):
             name = rng.choice(DICT_READ if read else DICT_MUT)
             if name == "dsetitem":
